@@ -81,7 +81,20 @@ func Execute(t *testing.T, job *Job) (res Result) {
 	} else {
 		tape = NewTape(job.Seed)
 	}
+	mkTape := func() *Tape {
+		if job.IsRep {
+			sp := map[int]int{}
+			for k, v := range job.Replay {
+				var i int
+				fmt.Sscanf(k, "%d", &i)
+				sp[i] = v
+			}
+			return ReplayTape(sp)
+		}
+		return NewTape(job.Seed)
+	}
 	r := newRun(tape)
+	r.Pass = 1
 	if job.Prop != "INVENTORY" && needsInventory[job.Prop] {
 		r.Sites = Inventory(t)
 	}
@@ -93,7 +106,7 @@ func Execute(t *testing.T, job *Job) (res Result) {
 		res.Trouble = "unknown scenario " + job.Prop + "/" + job.Profile
 		return res
 	}
-	func() {
+	bubble := func(r *Run) {
 		defer simsync.Install(nil)
 		defer func() {
 			if e := recover(); e != nil {
@@ -123,7 +136,42 @@ func Execute(t *testing.T, job *Job) (res Result) {
 			}()
 			scen(r, job)
 		})
-	}()
+	}
+	bubble(r)
+	if r.WantSecond && r.Viol == nil && r.Trouble == nil {
+		// differential scenario: second bubble with an identically generated tape
+		first := r
+		r2 := newRun(mkTape())
+		r2.Pass, r2.Other, r2.Sites = 2, first, first.Sites
+		bubble(r2)
+		// merge: the verdict and log of the second pass, the tape and statistics of both
+		r2.Log = append(append(first.Log, "---- second pass ----"), r2.Log...)
+		r2.Stats.SchedSteps += first.Stats.SchedSteps
+		r2.Stats.ExternalSteps += first.Stats.ExternalSteps
+		r2.Stats.StepsWithChoice += first.Stats.StepsWithChoice
+		r2.Stats.NonNatural += first.Stats.NonNatural
+		r2.Stats.HoldsFired += first.Stats.HoldsFired
+		r2.Stats.SimNanos += first.Stats.SimNanos
+		r2.Stats.InjectedDelayNs += first.Stats.InjectedDelayNs
+		for k, v := range first.Stats.Faults {
+			r2.Stats.Faults[k] += v
+		}
+		for k, v := range first.Stats.Probes {
+			r2.Stats.Probes[k] += v
+		}
+		for k := range first.States {
+			r2.States[k] = struct{}{}
+		}
+		for k := range first.Trans {
+			r2.Trans[k] = struct{}{}
+		}
+		if r2.Desc == "" {
+			r2.Desc = first.Desc
+		}
+		r2.NonTriv = r2.NonTriv || first.NonTriv
+		tape = first.T // the first pass consumed the decisive choices
+		r = r2
+	}
 	res.Hash = r.LogHash()
 	res.Canon = r.CanonHash()
 	res.Viol = r.Viol
